@@ -2,7 +2,7 @@
 from harness import frontfuzz, chk, lexer
 
 ID = "C07"
-MODULES = ["HeraProofs.Props.C07", "HeraProofs.Props.C10", "HeraProofs.Props.C16", "HeraProofs.Props.C09"]
+MODULES = ["HeraProofs.Props.C07", "HeraProofs.Props.C10", "HeraProofs.Props.C16", "HeraProofs.Props.C09", "HeraProofs.Props.C07b"]
 GENERATED_DEPS = []
 EXPLANATION = ("Theorems over the lexer model (every loop termination-checked by Lean; corresponded with the real Lexer token by "
                "token incl. line and column on valid, damaged and random ASCII texts): C07_token_progress (every token but EOF "
